@@ -42,6 +42,7 @@ type memRegion struct {
 	cls  string // region class of Memory.tla: arg.response, out.token, ...
 	buf  []byte // the tracked bytes (full backing extent)
 	snap []byte
+	n    int // length of the slice as handed out (the bytes the caller owns; the rest is spare capacity)
 }
 
 type memArena struct {
@@ -82,7 +83,24 @@ func (a *memArena) out(cls, name string, s []byte) {
 		return
 	}
 	full := s[:cap(s)]
-	a.regions = append(a.regions, &memRegion{name: name, cls: cls, buf: full, snap: append([]byte{}, full...)})
+	a.regions = append(a.regions, &memRegion{name: name, cls: cls, buf: full, snap: append([]byte{}, full...), n: len(s)})
+}
+
+// callerOverwritesTokens: the tokens a finalization returned are the caller's values; it uses them and wipes them.
+// Nothing the library does afterwards may write to that memory again (not even the same bytes), and nothing the
+// library keeps may live in it.
+func (a *memArena) callerOverwritesTokens() {
+	for i, r := range a.regions {
+		if r.cls != "out.token" {
+			continue
+		}
+		for k := 0; k < r.n; k++ {
+			r.buf[k] = 0xA5 ^ byte(i+k)
+		}
+	}
+	for _, r := range a.regions { // regions overlap (fields of one token share a backing array): take new snapshots of all
+		r.snap = append(r.snap[:0], r.buf...)
+	}
 }
 
 // diff returns the names of the regions whose bytes changed since the last
@@ -276,6 +294,9 @@ func memRun(seed int64, kind string, calls []string, fill byte) []memStep {
 					}
 					return "ok", ""
 				})
+				if c == "FinGood" {
+					a.callerOverwritesTokens()
+				}
 			}
 		}
 	case "t1issuer", "t5issuer", "t2issuer":
